@@ -7,6 +7,7 @@ import PoetryVerif.Proofs.ParserTotalSimp2
 import PoetryVerif.Proofs.MarkerPrintChars
 import PoetryVerif.Model.MarkerOps
 import PoetryVerif.Proofs.MarkerProjNames
+import PoetryVerif.Proofs.ParserTotalVC5
 
 set_option linter.unusedSimpArgs false
 set_option linter.unusedVariables false
@@ -919,11 +920,240 @@ theorem mkSingle_lexLeaf (n op v : String) (hn : n ∈ names) (ho : op ∈ ops) 
           simp only [List.cons_append, List.take_succ_cons, List.cons.injEq] at hk
           exact hne (by simp [← hk.1])
 
+/-! ### swapped items `"value" op name`: `STR_CMP_CONSTRAINT` -/
+
+theorem stripPrefixCI_struct (p s o r : List Char) (h : stripPrefixCI? p s = some (o, r)) :
+    s = o ++ r ∧ o.length = p.length ∧ lowerStr o = lowerStr p := by
+  unfold stripPrefixCI? at h
+  split at h
+  · rename_i hc
+    simp only [Bool.and_eq_true, decide_eq_true_eq, beq_iff_eq] at hc
+    cases h
+    exact ⟨(List.take_append_drop _ _).symm, by simp [List.length_take]; omega, hc.2⟩
+  · cases h
+
+theorem dropSpaces_split : ∀ (l : List Char), ∃ ws, l = ws ++ dropSpaces l ∧ ∀ c ∈ ws, isSpace c = true := by
+  intro l
+  induction l with
+  | nil => exact ⟨[], by simp [dropSpaces], by intro c hc; simp at hc⟩
+  | cons d l ih =>
+    unfold dropSpaces
+    split
+    · rename_i hd
+      obtain ⟨ws, h1, h2⟩ := ih
+      refine ⟨d :: ws, by simp [← h1], ?_⟩
+      intro c hc
+      simp at hc
+      rcases hc with rfl | hc
+      · exact hd
+      · exact h2 c hc
+    · exact ⟨[], by simp, by intro c hc; simp at hc⟩
+
+theorem lower_eq_noquote {o p : List Char} (h : lowerStr o = lowerStr p) (hp : ∀ c ∈ lowerStr p, c ≠ '"') :
+    ∀ c ∈ o, c ≠ '"' := by
+  intro c hc hq
+  subst hq
+  have : lowerChar '"' ∈ lowerStr o := by unfold lowerStr; exact List.mem_map_of_mem hc
+  rw [h] at this
+  exact hp _ this (by decide)
+
+/-- the operator tail `\s*(not\sin|in)$`: it holds no double quote, and the operator group is not `~=` -/
+theorem strCmpTail_spec (r : List Char) (o : String) (h : strCmpTail? r = some o) :
+    (∀ c ∈ r, c ≠ '"') ∧ o ≠ "~=" := by
+  obtain ⟨ws, hsplit, hws⟩ := dropSpaces_split r
+  have hnq_ws : ∀ c ∈ ws, c ≠ '"' := fun c hc => (isSpace_noQB c (hws c hc)).1
+  have endOk_nq : ∀ t : List Char, (t.isEmpty || t == ['\n']) = true → ∀ c ∈ t, c ≠ '"' := by
+    intro t ht c hc
+    simp only [Bool.or_eq_true, List.isEmpty_iff, beq_iff_eq] at ht
+    rcases ht with rfl | rfl
+    · simp at hc
+    · simp at hc; subst hc; decide
+  have hnot : ∀ c ∈ lowerStr "not".toList, c ≠ '"' := by decide
+  have hin : ∀ c ∈ lowerStr "in".toList, c ≠ '"' := by decide
+  unfold strCmpTail? at h
+  simp only at h
+  -- the `in` alternative
+  have inCase : ∀ (o' : String), (match stripPrefixCI? "in".toList (dropSpaces r) with
+      | some (o, r2) => if (r2.isEmpty || r2 == ['\n']) = true then some (String.ofList o) else none
+      | none => none) = some o' → (∀ c ∈ r, c ≠ '"') ∧ o' ≠ "~=" := by
+    intro o' h'
+    split at h'
+    · rename_i o2 r2 hs
+      split at h'
+      · rename_i hend
+        cases h'
+        obtain ⟨h1, h2, h3⟩ := stripPrefixCI_struct _ _ _ _ hs
+        refine ⟨?_, ?_⟩
+        · intro c hc
+          rw [hsplit, h1] at hc
+          simp only [List.mem_append] at hc
+          rcases hc with hc | hc | hc
+          · exact hnq_ws c hc
+          · exact lower_eq_noquote h3 hin c hc
+          · exact endOk_nq r2 hend c hc
+        · intro he
+          have : o2 = ['~', '='] := by
+            have := congrArg String.toList he
+            simpa using this
+          rw [this] at h3
+          revert h3; decide
+      · cases h'
+    · cases h'
+  split at h
+  · rename_i o' hn
+    cases h
+    -- the `not in` alternative
+    split at hn
+    · rename_i o1 c r2 hs1
+      split at hn
+      · rename_i hsp
+        split at hn
+        · rename_i o2 r3 hs2
+          split at hn
+          · rename_i hend
+            cases hn
+            obtain ⟨h1, h2, h3⟩ := stripPrefixCI_struct _ _ _ _ hs1
+            obtain ⟨g1, g2, g3⟩ := stripPrefixCI_struct _ _ _ _ hs2
+            refine ⟨?_, ?_⟩
+            · intro d hd
+              rw [hsplit, h1, g1] at hd
+              simp only [List.mem_append, List.mem_cons] at hd
+              rcases hd with hd | hd | rfl | hd | hd
+              · exact hnq_ws d hd
+              · exact lower_eq_noquote h3 hnot d hd
+              · exact (isSpace_noQB _ hsp).1
+              · exact lower_eq_noquote g3 hin d hd
+              · exact endOk_nq r3 hend d hd
+            · intro he
+              have := congrArg (fun t => t.toList.length) he
+              simp only [String.toList_ofList, List.length_append, List.length_cons, List.length_nil] at this
+              rw [h2, g2] at this
+              revert this; decide
+          · cases hn
+        · cases hn
+      · cases hn
+    · cases hn
+  · exact inCase o h
+
+/-- the structure of a `STR_CMP_CONSTRAINT` match: the value is a prefix of the text after the opening quote that
+holds no newline and is followed by the quote and the operator tail -/
+theorem strCmpGo_spec (q : Char) (body : List Char) : ∀ (fuel j : Nat) (val op : String),
+    Marker.matchStrCmp.go q body j fuel = some (val, op) →
+    ∃ j', val = String.ofList (body.take j') ∧ (body.take j').contains '\n' = false ∧
+      ∃ r, body.drop j' = q :: r ∧ strCmpTail? r = some op := by
+  intro fuel
+  induction fuel with
+  | zero => intro j val op h; simp [Marker.matchStrCmp.go] at h
+  | succ f ih =>
+    intro j val op h
+    unfold Marker.matchStrCmp.go at h
+    split at h
+    · cases h
+    · split at h
+      · cases h
+      · rename_i hnl
+        split at h
+        · rename_i c r hd
+          split at h
+          · rename_i hcq
+            split at h
+            · rename_i op' htail
+              cases h
+              refine ⟨j, rfl, by simpa using hnl, r, ?_, htail⟩
+              rw [hd]; simp at hcq; rw [hcq]
+            · exact ih _ _ _ h
+          · exact ih _ _ _ h
+        · cases h
+
+/-- **on a swapped item the stored value is the whole token value** (only the last quote can be followed by the
+operator tail), and the stored operator is not `~=` -/
+theorem matchStrCmp_swapped (v op : String) (ho : op ∈ ops) (val o : String)
+    (h : Marker.matchStrCmp (itemConstraintString op v true).toList = some (val, o)) :
+    val = v ∧ (∀ c ∈ v.toList, c ≠ '\n') ∧ o ≠ "~=" := by
+  have hcs : (itemConstraintString op v true).toList = '"' :: (v.toList ++ '"' :: ' ' :: op.toList) := by
+    simp [itemConstraintString, String.toList_append]
+  rw [hcs] at h
+  unfold Marker.matchStrCmp at h
+  simp only [bne_self_eq_false, Bool.false_and, Bool.false_eq_true, if_false] at h
+  obtain ⟨j', hval, hnl, r, hdrop, htail⟩ := strCmpGo_spec _ _ _ _ _ _ h
+  obtain ⟨hrq, hone⟩ := strCmpTail_spec r o htail
+  have hopq : ∀ c ∈ op.toList, c ≠ '"' := fun c hc => (ops_chars_clean op ho c hc).2.2.1
+  have hj : j' = v.toList.length := by
+    rcases Nat.lt_trichotomy j' v.toList.length with hlt | heq | hgt
+    · exfalso
+      rw [List.drop_append_of_le_length (by omega)] at hdrop
+      cases hdv : v.toList.drop j' with
+      | nil =>
+        have := congrArg List.length hdv
+        simp at this; omega
+      | cons x t =>
+        rw [hdv] at hdrop
+        simp only [List.cons_append, List.cons.injEq] at hdrop
+        exact hrq '"' (by rw [← hdrop.2]; simp) rfl
+    · exact heq
+    · exfalso
+      obtain ⟨k, hk⟩ : ∃ k, j' - v.toList.length = k + 1 := ⟨j' - v.toList.length - 1, by omega⟩
+      have hd : (v.toList ++ '"' :: ' ' :: op.toList).drop j' = (' ' :: op.toList).drop k := by
+        rw [List.drop_append]
+        have h0 : v.toList.drop j' = [] := List.drop_eq_nil_of_le (by omega)
+        rw [h0, List.nil_append, hk, List.drop_succ_cons]
+      rw [hd] at hdrop
+      have hmem : '"' ∈ (' ' :: op.toList) :=
+        (List.drop_sublist _ _).subset (by rw [hdrop]; simp)
+      simp at hmem
+      exact hopq '"' hmem rfl
+  subst hj
+  have htake : (v.toList ++ '"' :: ' ' :: op.toList).take v.toList.length = v.toList := by simp
+  rw [htake] at hval hnl
+  refine ⟨by rw [hval]; simp, ?_, hone⟩
+  intro c hc hce
+  subst hce
+  have := List.contains_iff_mem.mpr hc
+  rw [hnl] at this; cases this
+
+theorem leafPrepare_swapped (name cstr : String) (p : LeafPrep) (h : leafPrepare name cstr true = .ok p) :
+    ∃ val o, Marker.matchStrCmp cstr.toList = some (val, o) ∧ p.value = val ∧ p.op = o ∧
+      p.name = aliasName name := by
+  unfold leafPrepare at h
+  simp only [if_true, Bool.not_true, Bool.and_false, Bool.false_eq_true, if_false] at h
+  cases hm : Marker.matchStrCmp cstr.toList with
+  | none => simp [hm] at h
+  | some pr =>
+    obtain ⟨val, o⟩ := pr
+    simp only [hm, Option.map_some] at h
+    repeat' split at h
+    all_goals first
+      | (cases h; done)
+      | (cases h; exact ⟨val, o, rfl, rfl, rfl, rfl⟩)
+
+/-- a token value without newline is lexable -/
+theorem lexVal_of_tok (v : String) (hv : TokVal v) (hnl : ∀ c ∈ v.toList, c ≠ '\n') : LexVal v := by
+  refine lexVal_of_cut [] v.toList v (by intro c hc; simp at hc) hv ⟨0, ?_, by intro c hc; simp at hc⟩
+  simp only [List.nil_append, List.drop_zero]
+  exact (takeWhile_all _ (fun c hc => by simpa using hnl c hc)).symm
+
+/-- **a leaf built from a swapped grammar item is lexable** -/
+theorem mkSingle_lexLeaf_swapped (n op v : String) (hn : n ∈ names) (ho : op ∈ ops) (hv : TokVal v)
+    (s : Single) (h : mkSingle n (itemConstraintString op v true) true = .ok s) : LexLeaf (.single s) := by
+  unfold mkSingle at h
+  obtain ⟨p, hp, h⟩ := bind_ok _ _ _ h
+  obtain ⟨c, _, h⟩ := bind_ok _ _ _ h
+  simp only [pure, Except.pure, Except.ok.injEq] at h
+  subst h
+  obtain ⟨val, o, hm, hval, hop, hname⟩ := leafPrepare_swapped n _ p hp
+  obtain ⟨h1, h2, h3⟩ := matchStrCmp_swapped v op ho val o hm
+  refine ⟨by show p.name ∈ names; rw [hname]; exact alias_names n hn, ?_, ?_⟩
+  · show LexVal p.value
+    rw [hval, h1]; exact lexVal_of_tok v hv h2
+  · show p.op ≠ "~="
+    rw [hop]; exact h3
+
 mutual
-/-- **plain input**: every item is `name op <string token>` (not swapped) with a grammar name, a grammar operator
-other than `~=`, and a token value (`TokVal` — what the grammar's string tokens hold, see `parseText_tok`) -/
+/-- **lexable input**: every item has a grammar name, a grammar operator — not `~=` when the item is
+`name op <string token>`; a swapped item `<string token> op name` is only accepted with `in` / `not in` — and a
+token value (`TokVal` — what the grammar's string tokens hold, see `parseText_tok`) -/
 def AtomLexIn : Marker.Atom → Prop
-  | .item n op v sw => n ∈ names ∧ op ∈ ops ∧ op ≠ "~=" ∧ sw = false ∧ TokVal v
+  | .item n op v sw => n ∈ names ∧ op ∈ ops ∧ (sw = false → op ≠ "~=") ∧ TokVal v
   | .paren m => SynLexIn m
 def SynLexIn : Syn → Prop
   | .one a => AtomLexIn a
@@ -933,12 +1163,14 @@ end
 mutual
 theorem compactAtom_lex : ∀ (a : Marker.Atom) (m : M), AtomLexIn a → compactAtom a = .ok m → M.Good LexLeaf m
   | .item n op v sw, m, hl, h => by
-    obtain ⟨hn, ho, hop, rfl, hv⟩ := hl
+    obtain ⟨hn, ho, hop, hv⟩ := hl
     unfold compactAtom at h
     obtain ⟨s, hs, h⟩ := bind_ok _ _ _ h
     simp only [pure, Except.pure, Except.ok.injEq] at h
     subst h
-    simpa using mkSingle_lexLeaf n op v hn ho hop hv s hs
+    cases sw with
+    | false => simpa using mkSingle_lexLeaf n op v hn ho (hop rfl) hv s hs
+    | true => simpa using mkSingle_lexLeaf_swapped n op v hn ho hv s hs
   | .paren syn, m, hl, h => by
     unfold compactAtom at h
     obtain ⟨gs, hg, h⟩ := bind_ok _ _ _ h
@@ -1035,7 +1267,7 @@ theorem unionF_no_syntax_of {G : Leaf → Prop} (hM : MergeNoSyntax G) (n : Nat)
   · exact .inr (.inr (.inr h))
 
 /-- the hypothesis follows from Part X plus "no `.syntax` from the merge" -/
-theorem mergeNoSyntax_of_ne {P : VC → Prop} (hvc : VCErrDocumented) (hP : VCOpsTotal P)
+theorem mergeNoSyntax_of_ne {P : VC → Prop} (hvc : VCErrDocumented) (hP : VCOpsMin P)
     (hne : ∀ l1 l2 b, LeafOK P l1 → LeafOK P l2 → mergeLeaves l1 l2 b ≠ .error .syntax) :
     MergeNoSyntax (LeafOK P) := by
   intro l1 l2 b h1 h2
@@ -1051,7 +1283,7 @@ theorem mergeNoSyntax_of_ne {P : VC → Prop} (hvc : VCErrDocumented) (hP : VCOp
     · exact .inr (.inr (.inl h))
     · exact .inr (.inr (.inr h))
 
-theorem compactTop_no_syntax_of {P : VC → Prop} (hvc : VCErrDocumented) (hP : VCOpsTotal P)
+theorem compactTop_no_syntax_of {P : VC → Prop} (hvc : VCErrDocumented) (hP : VCOpsMin P)
     (hM : MergeNoSyntax (LeafOK P)) (syn : Syn) (e : PyErr) (h : Req.compactTop syn = .error e) :
     e = .fuel ∨ e = .recursion ∨ e = .value ∨ e = .unmodelled := by
   unfold Req.compactTop at h
@@ -1061,7 +1293,7 @@ theorem compactTop_no_syntax_of {P : VC → Prop} (hvc : VCErrDocumented) (hP : 
     · exact .inr (.inr (.inr h))
   · exact unionF_no_syntax_of hM _ _ _ (compactSubMarkers_good hvc hP syn subs hs) e h
 
-theorem parseMarker_no_syntax_of {P : VC → Prop} (hvc : VCErrDocumented) (hP : VCOpsTotal P)
+theorem parseMarker_no_syntax_of {P : VC → Prop} (hvc : VCErrDocumented) (hP : VCOpsMin P)
     (hM : MergeNoSyntax (LeafOK P)) (s : String) (syn : Syn) (hp : parseText s = .ok syn) (e : PyErr)
     (h : parseMarker s = .error e) : e = .fuel ∨ e = .recursion ∨ e = .value ∨ e = .unmodelled := by
   rcases parseMarker_cases s _ h with ⟨_, h⟩ | ⟨_, _, h⟩ | ⟨_, _, _, h⟩
@@ -1098,25 +1330,27 @@ def SynTok : Syn → Prop
 end
 
 mutual
-/-- no swapped item, no `~=` (decidable on the tree) -/
-def AtomPlain : Marker.Atom → Bool
-  | .item _ op _ sw => op != "~=" && !sw
-  | .paren m => SynPlain m
-def SynPlain : Syn → Bool
-  | .one a => AtomPlain a
-  | .more a _ rest => AtomPlain a && SynPlain rest
+/-- no item `name ~= "value"` (decidable on the tree) -/
+def AtomNoCompat : Marker.Atom → Bool
+  | .item _ op _ sw => sw || op != "~="
+  | .paren m => SynNoCompat m
+def SynNoCompat : Syn → Bool
+  | .one a => AtomNoCompat a
+  | .more a _ rest => AtomNoCompat a && SynNoCompat rest
 end
 
 mutual
-theorem atomLexIn_of : ∀ (a : Marker.Atom), AtomTok a → AtomPlain a = true → AtomLexIn a
+theorem atomLexIn_of : ∀ (a : Marker.Atom), AtomTok a → AtomNoCompat a = true → AtomLexIn a
   | .item n op v sw, ht, hp => by
-    simp only [AtomPlain, Bool.and_eq_true, bne_iff_ne, ne_eq, Bool.not_eq_true'] at hp
-    exact ⟨ht.1, ht.2.1, hp.1, hp.2, ht.2.2⟩
-  | .paren m, ht, hp => synLexIn_of m ht (by simpa [AtomPlain] using hp)
-theorem synLexIn_of : ∀ (m : Syn), SynTok m → SynPlain m = true → SynLexIn m
-  | .one a, ht, hp => atomLexIn_of a ht (by simpa [SynPlain] using hp)
+    refine ⟨ht.1, ht.2.1, ?_, ht.2.2⟩
+    intro hsw
+    subst hsw
+    simpa [AtomNoCompat] using hp
+  | .paren m, ht, hp => synLexIn_of m ht (by simpa [AtomNoCompat] using hp)
+theorem synLexIn_of : ∀ (m : Syn), SynTok m → SynNoCompat m = true → SynLexIn m
+  | .one a, ht, hp => atomLexIn_of a ht (by simpa [SynNoCompat] using hp)
   | .more a _ rest, ht, hp => by
-    simp only [SynPlain, Bool.and_eq_true] at hp
+    simp only [SynNoCompat, Bool.and_eq_true] at hp
     exact ⟨atomLexIn_of a ht.1 hp.1, synLexIn_of rest ht.2 hp.2⟩
 end
 
@@ -1232,10 +1466,7 @@ theorem parseText_tok (s : String) (syn : Syn) (h : parseText s = .ok syn) : Syn
     · cases h
   · cases h
 
-/-! ## markers that do not mention `python_version` / `python_full_version`: no lark error from the simplifier -/
-
-/-- the grammar's variable names other than the two python-version ones -/
-def nonPyNames : List String := names.filter (fun n => !isPyName n)
+/-! ## markers that do not mention BOTH python-version variables: no lark error from the simplifier -/
 
 mutual
 theorem good_and {G1 G2 : Leaf → Prop} : ∀ (m : M), M.Good G1 m → M.Good G2 m → M.Good (fun l => G1 l ∧ G2 l) m
@@ -1259,17 +1490,20 @@ theorem goodAll_and {G1 G2 : Leaf → Prop} : ∀ (ms : List M), (∀ m ∈ ms, 
     · exact goodAll_and xs (fun y hy => h1 y (by simp [hy])) (fun y hy => h2 y (by simp [hy])) m hm
 end
 
-/-- the invariant for markers without python-version leaves -/
-def NoPyOK (P : VC → Prop) (l : Leaf) : Prop := LeafOK P l ∧ Named nonPyNames l
+/-- the grammar's variable names without `python_version` / without `python_full_version` -/
+def namesNoPv : List String := names.filter (fun n => n != "python_version")
+def namesNoPfv : List String := names.filter (fun n => n != "python_full_version")
 
-theorem nonPy_not_py : ∀ n ∈ nonPyNames, isPyName n = false := by decide
+/-- the invariant of Part X together with "named by a variable of `N`, spelt canonically" -/
+def NamedOK (P : VC → Prop) (N : List String) (l : Leaf) : Prop := LeafOK P l ∧ Named N l
 
-theorem mergeNoSyntax_noPy {P : VC → Prop} (hvc : VCErrDocumented) (hP : VCOpsTotal P) :
-    MergeNoSyntax (NoPyOK P) := by
+/-- **the leaf merge does not raise lark's error** on leaves named in `N`, when `N`-named leaves never form a
+re-parsing pair (`NoSyn … false`) -/
+theorem mergeNoSyntax_named {P : VC → Prop} (hvc : VCErrDocumented) (hP : VCOpsMin P) (N : List String)
+    (hN : ∀ l1 l2, Named N l1 → Named N l2 → NoSyn P false l1 l2) : MergeNoSyntax (NamedOK P N) := by
   intro l1 l2 b h1 h2
-  have hn1 := nonPy_not_py _ h1.2.1
-  have hn2 := nonPy_not_py _ h2.2.1
-  have R := mergeLeaves_resS (sb := false) hvc hP l1 l2 b h1.1 h2.1 (.inr hn1)
+  have hns := hN l1 l2 h1.2 h2.2
+  have R := mergeLeaves_resS (sb := false) hvc hP l1 l2 b h1.1 h2.1 hns
   have hp : ((l1.name == "python_version" && l2.name == "python_full_version") ||
       (l1.name == "python_full_version" && l2.name == "python_version")) = false := by
     cases hq : ((l1.name == "python_version" && l2.name == "python_full_version") ||
@@ -1278,7 +1512,14 @@ theorem mergeNoSyntax_noPy {P : VC → Prop} (hvc : VCErrDocumented) (hP : VCOps
     | true =>
       exfalso
       simp only [Bool.or_eq_true, Bool.and_eq_true, beq_iff_eq] at hq
-      rcases hq with ⟨h, _⟩ | ⟨h, _⟩ <;> (rw [h] at hn1; revert hn1; decide)
+      rcases hns with h | h | h
+      · cases h
+      · rcases hq with ⟨h', _⟩ | ⟨_, h'⟩
+        · exact h.1 h'
+        · exact h.2 h'
+      · rcases hq with ⟨_, h'⟩ | ⟨h', _⟩
+        · exact h.2.2 h'
+        · exact h.2.1 h'
   cases hm : mergeLeaves l1 l2 b with
   | error e =>
     rw [hm] at R
@@ -1290,44 +1531,73 @@ theorem mergeNoSyntax_noPy {P : VC → Prop} (hvc : VCErrDocumented) (hP : VCOps
     · exact .inr (.inr (.inr h))
   | ok o =>
     rw [hm] at R
-    show OptGood (NoPyOK P) o
+    show OptGood (NamedOK P N) o
     intro r hr
     subst hr
-    have hnamed := mergeSingle_nonpy_named nonPyNames 2 l1 l2 b r hp h1.2 h2.2 hm
+    have hnamed := mergeSingle_nonpy_named N 2 l1 l2 b r hp h1.2 h2.2 hm
     exact good_and r (R r rfl) hnamed
 
+theorem namesNoPv_ne : ∀ n ∈ namesNoPv, n ≠ "python_version" := by decide
+theorem namesNoPfv_ne : ∀ n ∈ namesNoPfv, n ≠ "python_full_version" := by decide
+
+/-- no leaf named `python_version`: hypothesis-free -/
+theorem mergeNoSyntax_noPv {P : VC → Prop} (hvc : VCErrDocumented) (hP : VCOpsMin P) :
+    MergeNoSyntax (NamedOK P namesNoPv) :=
+  mergeNoSyntax_named hvc hP namesNoPv
+    (fun l1 l2 h1 h2 => .inr (.inl ⟨namesNoPv_ne _ h1.1, namesNoPv_ne _ h2.1⟩))
+
+/-- no leaf named `python_full_version`: needs the candidate text to be readable (`SiteAOk`) -/
+theorem mergeNoSyntax_noPfv {P : VC → Prop} (hvc : VCErrDocumented) (hP : VCOpsMin P) (hA : SiteAOk P) :
+    MergeNoSyntax (NamedOK P namesNoPfv) :=
+  mergeNoSyntax_named hvc hP namesNoPfv
+    (fun l1 l2 h1 h2 => .inr (.inr ⟨hA, namesNoPfv_ne _ h1.1, namesNoPfv_ne _ h2.1⟩))
+
+/-- the texts of the bounds of constraints in `P` are plain -/
+def TextOkP (P : VC → Prop) : Prop :=
+  ∀ c, P c → ∀ r ∈ c.flatten, ∀ v ∈ r.bounds, ∀ ch ∈ v.text.toList, ch ≠ '"' ∧ ch ≠ '\\' ∧ ch ≠ '\n' ∧ ch ≠ '\''
+
+theorem siteAOk_of_text {P : VC → Prop} (hT : TextOkP P) : SiteAOk P := by
+  intro r mn hr hmn
+  have hpl : PlainStr mn.text := by
+    intro ch hch
+    refine hT _ hr (.rng r) (by simp [VC.flatten]) mn ?_ ch hch
+    simp [RC.bounds, RC.view, VRange.bounds, RC.min, hmn]
+  have hq : quoteOf mn.text = "\"" := quoteOf_dq (fun c hc => ⟨(hpl c hc).1, (hpl c hc).2.1⟩)
+  have ht : "python_version == \"" ++ mn.text ++ "\"" = leafText "python_version" "==" mn.text false := by
+    simp [leafText, hq, String.append_assoc]
+  rw [ht]
+  exact parseText_leafText _ _ _ _ (by decide) (by decide) hpl.lex
+
 mutual
-/-- no item on `python_version` / `python_full_version` (decidable on the tree) -/
-def AtomNoPy : Marker.Atom → Bool
-  | .item n _ _ _ => !isPyName n
-  | .paren m => SynNoPy m
-def SynNoPy : Syn → Bool
-  | .one a => AtomNoPy a
-  | .more a _ rest => AtomNoPy a && SynNoPy rest
+/-- every item's variable is in `N` (decidable on the tree) -/
+def AtomIn (N : List String) : Marker.Atom → Bool
+  | .item n _ _ _ => N.contains n
+  | .paren m => SynIn N m
+def SynIn (N : List String) : Syn → Bool
+  | .one a => AtomIn N a
+  | .more a _ rest => AtomIn N a && SynIn N rest
 end
 
-theorem alias_nonPy : ∀ n ∈ nonPyNames, aliasName n ∈ nonPyNames ∧ aliasName (aliasName n) = aliasName n := by
-  decide
+/-- `N` is closed under alias resolution, which is idempotent on it -/
+def AliasClosed (N : List String) : Prop := ∀ n ∈ N, aliasName n ∈ N ∧ aliasName (aliasName n) = aliasName n
 
-theorem mkSingle_name_alias (name cstr : String) (sw : Bool) (s : Single) (h : mkSingle name cstr sw = .ok s) :
-    s.name = aliasName name := mkSingle_name' name cstr sw s h
+theorem aliasClosed_noPv : AliasClosed namesNoPv := by unfold AliasClosed; decide
+theorem aliasClosed_noPfv : AliasClosed namesNoPfv := by unfold AliasClosed; decide
 
 mutual
-theorem compactAtom_named : ∀ (a : Marker.Atom) (m : M), AtomTok a → AtomNoPy a = true → compactAtom a = .ok m →
-    M.Good (Named nonPyNames) m
-  | .item n op v sw, m, ht, hp, h => by
+theorem compactAtom_named (N : List String) (hN : AliasClosed N) : ∀ (a : Marker.Atom) (m : M),
+    AtomIn N a = true → compactAtom a = .ok m → M.Good (Named N) m
+  | .item n op v sw, m, hp, h => by
     unfold compactAtom at h
     obtain ⟨s, hs, h⟩ := bind_ok _ _ _ h
     simp only [pure, Except.pure, Except.ok.injEq] at h
     subst h
-    have hn : n ∈ nonPyNames := by
-      unfold nonPyNames
-      exact List.mem_filter.2 ⟨ht.1, by simpa [AtomNoPy] using hp⟩
-    have := alias_nonPy n hn
+    have hn : n ∈ N := by simpa [AtomIn] using hp
+    have := hN n hn
     simp only [M.good_leaf, Named, Leaf.name]
-    rw [mkSingle_name_alias _ _ _ _ hs]
+    rw [mkSingle_name' _ _ _ _ hs]
     exact this
-  | .paren syn, m, ht, hp, h => by
+  | .paren syn, m, hp, h => by
     unfold compactAtom at h
     obtain ⟨gs, hg, h⟩ := bind_ok _ _ _ h
     simp only [pure, Except.pure, Except.ok.injEq] at h
@@ -1336,24 +1606,24 @@ theorem compactAtom_named : ∀ (a : Marker.Atom) (m : M), AtomTok a → AtomNoP
     intro x hx
     simp only [List.mem_map] at hx
     obtain ⟨g, hg', rfl⟩ := hx
-    exact groupMarker_good (compactGroups_named syn gs ht (by simpa [AtomNoPy] using hp) hg g hg')
-theorem compactGroups_named : ∀ (s : Syn) (gs : List (List M)), SynTok s → SynNoPy s = true →
-    compactGroups s = .ok gs → ∀ g ∈ gs, GL (Named nonPyNames) g
-  | .one a, gs, ht, hp, h => by
+    exact groupMarker_good (compactGroups_named N hN syn gs (by simpa [AtomIn] using hp) hg g hg')
+theorem compactGroups_named (N : List String) (hN : AliasClosed N) : ∀ (s : Syn) (gs : List (List M)),
+    SynIn N s = true → compactGroups s = .ok gs → ∀ g ∈ gs, GL (Named N) g
+  | .one a, gs, hp, h => by
     unfold compactGroups at h
     obtain ⟨x, hx, h⟩ := bind_ok _ _ _ h
     simp only [pure, Except.pure, Except.ok.injEq] at h
     subst h
     intro g hg
     simp at hg; subst hg
-    exact single_good (compactAtom_named a x ht (by simpa [SynNoPy] using hp) hx)
-  | .more a isOr rest, gs, ht, hp, h => by
+    exact single_good (compactAtom_named N hN a x (by simpa [SynIn] using hp) hx)
+  | .more a isOr rest, gs, hp, h => by
     unfold compactGroups at h
     obtain ⟨x, hx, h⟩ := bind_ok _ _ _ h
     obtain ⟨gs', hgs, h⟩ := bind_ok _ _ _ h
-    simp only [SynNoPy, Bool.and_eq_true] at hp
-    have gx := compactAtom_named a x ht.1 hp.1 hx
-    have grest := compactGroups_named rest gs' ht.2 hp.2 hgs
+    simp only [SynIn, Bool.and_eq_true] at hp
+    have gx := compactAtom_named N hN a x hp.1 hx
+    have grest := compactGroups_named N hN rest gs' hp.2 hgs
     split at h
     · simp only [pure, Except.pure, Except.ok.injEq] at h
       subst h
@@ -1382,11 +1652,11 @@ theorem compactGroups_named : ∀ (s : Syn) (gs : List (List M)), SynTok s → S
         exact single_good gx
 end
 
-theorem compactSubMarkers_noPy {P : VC → Prop} (hvc : VCErrDocumented) (hP : VCOpsTotal P) (syn : Syn)
-    (subs : List M) (ht : SynTok syn) (hp : SynNoPy syn = true) (h : compactSubMarkers syn = .ok subs) :
-    GL (NoPyOK P) subs := by
+theorem compactSubMarkers_named {P : VC → Prop} (hvc : VCErrDocumented) (hP : VCOpsMin P) (N : List String)
+    (hN : AliasClosed N) (syn : Syn) (subs : List M) (hp : SynIn N syn = true)
+    (h : compactSubMarkers syn = .ok subs) : GL (NamedOK P N) subs := by
   have h1 := compactSubMarkers_good hvc hP syn subs h
-  have h2 : GL (Named nonPyNames) subs := by
+  have h2 : GL (Named N) subs := by
     unfold compactSubMarkers at h
     obtain ⟨gs, hg, h⟩ := bind_ok _ _ _ h
     simp only [pure, Except.pure, Except.ok.injEq] at h
@@ -1394,12 +1664,14 @@ theorem compactSubMarkers_noPy {P : VC → Prop} (hvc : VCErrDocumented) (hP : V
     intro x hx
     simp only [List.mem_map] at hx
     obtain ⟨g, hg', rfl⟩ := hx
-    exact groupMarker_good (compactGroups_named syn gs ht hp hg g hg')
+    exact groupMarker_good (compactGroups_named N hN syn gs hp hg g hg')
   exact fun m hm => good_and m (h1 m hm) (h2 m hm)
 
-/-- `parse_marker` on a text that does not mention `python_version` / `python_full_version` -/
-theorem parseMarker_noPy {P : VC → Prop} (hvc : VCErrDocumented) (hP : VCOpsTotal P) (s : String) (syn : Syn)
-    (hp : parseText s = .ok syn) (hnp : SynNoPy syn = true) (e : PyErr) (h : parseMarker s = .error e) :
+/-- `parse_marker` on a text whose variables are all in `N`, given that the merge on `N`-named leaves does not
+raise lark's error -/
+theorem parseMarker_named {P : VC → Prop} (hvc : VCErrDocumented) (hP : VCOpsMin P) (N : List String)
+    (hN : AliasClosed N) (hM : MergeNoSyntax (NamedOK P N)) (s : String) (syn : Syn)
+    (hp : parseText s = .ok syn) (hnp : SynIn N syn = true) (e : PyErr) (h : parseMarker s = .error e) :
     e = .fuel ∨ e = .recursion ∨ e = .value ∨ e = .unmodelled := by
   rcases parseMarker_cases s _ h with ⟨_, h⟩ | ⟨_, _, h⟩ | ⟨_, _, _, h⟩
   · cases h
@@ -1411,19 +1683,17 @@ theorem parseMarker_noPy {P : VC → Prop} (hvc : VCErrDocumented) (hP : VCOpsTo
       · exact .inr (.inr (.inl h))
       · exact .inr (.inr (.inr h))
     · rw [hp] at h1; cases h1
-      exact unionF_no_syntax_of (mergeNoSyntax_noPy hvc hP) _ _ _
-        (compactSubMarkers_noPy hvc hP syn subs (parseText_tok s syn hp) hnp h2) e h3.symm
+      exact unionF_no_syntax_of hM _ _ _ (compactSubMarkers_named hvc hP N hN syn subs hnp h2) e h3.symm
 
-theorem compactTop_noPy {P : VC → Prop} (hvc : VCErrDocumented) (hP : VCOpsTotal P) (syn : Syn)
-    (ht : SynTok syn) (hnp : SynNoPy syn = true) (e : PyErr) (h : Req.compactTop syn = .error e) :
-    e = .fuel ∨ e = .recursion ∨ e = .value ∨ e = .unmodelled := by
+theorem compactTop_named {P : VC → Prop} (hvc : VCErrDocumented) (hP : VCOpsMin P) (N : List String)
+    (hN : AliasClosed N) (hM : MergeNoSyntax (NamedOK P N)) (syn : Syn) (hnp : SynIn N syn = true) (e : PyErr)
+    (h : Req.compactTop syn = .error e) : e = .fuel ∨ e = .recursion ∨ e = .value ∨ e = .unmodelled := by
   unfold Req.compactTop at h
   rcases bind_err _ _ _ h with h | ⟨subs, hs, h⟩
   · rcases compactSubMarkers_err hvc syn _ h with h | h
     · exact .inr (.inr (.inl h))
     · exact .inr (.inr (.inr h))
-  · exact unionF_no_syntax_of (mergeNoSyntax_noPy hvc hP) _ _ _
-      (compactSubMarkers_noPy hvc hP syn subs ht hnp hs) e h
+  · exact unionF_no_syntax_of hM _ _ _ (compactSubMarkers_named hvc hP N hN syn subs hnp hs) e h
 
 theorem takeTail_tok (s : List Char) (syn : Syn) (h : Req.takeTail s = some (some syn)) : SynTok syn := by
   unfold Req.takeTail at h
@@ -1456,5 +1726,276 @@ theorem parseRaw_marker_tok (cs : List Char) (raw : Req.Raw) (syn : Syn) (h : Re
   all_goals first
     | (cases h; done)
     | exact parseRest_marker_tok _ _ _ _ _ h hm
+
+/-! ## the text-clean version-constraint package (Proofs/ParserTotalVC5.lean) -/
+
+theorem VCOpsTotalT.toMin {P : VC → Prop} (h : VCOpsTotalT P) : VCOpsMin P :=
+  ⟨h.any, h.parsed, h.inter, h.unionWith, h.isSimple, h.toStr⟩
+
+theorem VCOpsTotalT.textOkP {P : VC → Prop} (h : VCOpsTotalT P) : TextOkP P := by
+  intro c hc r hr v hv ch hch
+  have hv' := h.textOk c hc r hr v hv ch hch
+  exact ⟨vchar_ne ch '"' hv' (by decide), vchar_ne ch '\\' hv' (by decide), vchar_ne ch '\n' hv' (by decide),
+    vchar_ne ch '\'' hv' (by decide)⟩
+
+/-! ## `~=` markers: their inversion prints the bounds of the parsed constraint -/
+
+/-- a leaf whose printed text the grammar reads back, with its version constraint in `P` -/
+def LexLeafT (P : VC → Prop) (l : Leaf) : Prop :=
+  match l with
+  | .single s => s.name ∈ names ∧ LexVal s.value ∧ ∀ c, s.c = .ver c → P c
+  | _ => True
+
+theorem optVerStr_plain {P : VC → Prop} (hT : TextOkP P) (rc : RC) (hrc : P (.single rc)) :
+    PlainStr (optVerStr rc.min) ∧ PlainStr (optVerStr rc.max) := by
+  have key : ∀ (o : Option Version), (∀ v, o = some v → v ∈ rc.bounds) → PlainStr (optVerStr o) := by
+    intro o ho
+    cases o with
+    | none => unfold optVerStr PlainStr; decide
+    | some v =>
+      intro ch hch
+      exact hT _ hrc rc (by simp [VC.flatten]) v (ho v rfl) ch hch
+  constructor
+  · apply key
+    intro v hv
+    simp [RC.bounds, RC.view, VRange.bounds, hv]
+  · apply key
+    intro v hv
+    simp [RC.bounds, RC.view, VRange.bounds, hv]
+
+theorem tildeOps_plain : ∀ op ∈ [">=", ">", "<=", "<"], ∀ c ∈ op.toList,
+    c ≠ '\n' ∧ c ≠ '"' ∧ c ≠ '\\' ∧ c ≠ '\'' := by decide
+
+/-- the bound leaf `name >= <text>` built by the `~=` inversion is lexable -/
+theorem tilde_bound_leaf (name op T : String) (hn : name ∈ names) (hop : op = ">=" ∨ op = ">" ∨ op = "<=" ∨ op = "<")
+    (hT : PlainStr T) (a : Single) (h : mkSingle name (op ++ " " ++ T) false = .ok a) :
+    a.name ∈ names ∧ LexVal a.value := by
+  obtain ⟨hval, hname, _⟩ := mkSingle_value_cut name _ a h
+  refine ⟨by rw [hname]; exact alias_names name hn, ?_⟩
+  rcases hval with hcut | hpl
+  · have hcs : (op ++ " " ++ T).toList = (op.toList ++ [' ']) ++ T.toList := by
+      simp [String.toList_append]
+    rw [hcs] at hcut
+    refine lexVal_of_cut (op.toList ++ [' ']) T.toList a.value ?_ (.inl (fun c hc => (hT c hc).2.2.2)) hcut
+    intro c hc
+    simp only [List.mem_append, List.mem_singleton] at hc
+    rcases hc with hc | rfl
+    · have hmem : op ∈ [">=", ">", "<=", "<"] := by
+        rcases hop with rfl | rfl | rfl | rfl <;> simp
+      have := tildeOps_plain op hmem c hc
+      exact ⟨this.1, this.2.1, this.2.2.1, this.2.2.2⟩
+    · exact ⟨by decide, by decide, by decide, by decide⟩
+  · exact hpl.lex
+
+theorem single_invert_no_syntax {P : VC → Prop} (hvc : VCErrDocumented) (hT : TextOkP P) (s : Single)
+    (hl : LexLeafT P (.single s)) (e : PyErr) (h : Leaf.invert (.single s) = .error e) : e ≠ .syntax := by
+  obtain ⟨hn, hv, hc⟩ := hl
+  unfold Leaf.invert at h
+  simp only at h
+  split at h
+  · -- `~=`
+    split at h
+    · rename_i rc hsc
+      have hpl := optVerStr_plain hT rc (hc _ hsc)
+      rcases bind_err _ _ _ h with h | ⟨a, ha, h⟩
+      · rcases mkSingle_leafErr hvc _ _ _ _ h with h | h <;> (rw [h]; decide)
+      rcases bind_err _ _ _ h with h | ⟨b, hb, h⟩
+      · rcases mkSingle_leafErr hvc _ _ _ _ h with h | h <;> (rw [h]; decide)
+      have hA := tilde_bound_leaf s.name _ _ hn (by split <;> simp) hpl.1 a ha
+      have hB := tilde_bound_leaf s.name _ _ hn (by split <;> simp) hpl.2 b hb
+      rcases bind_err _ _ _ h with h | ⟨_, _, h⟩
+      · obtain ⟨m, hm, hme⟩ := mapM_err _ _ _ h
+        let Gx : Leaf → Prop := fun l => ∃ x, l = .single x ∧ x.name ∈ names ∧ LexVal x.value
+        have hg : GL Gx (flattenMarkers true [.leaf (.single a), .leaf (.single b)]) :=
+          flattenMarkers_good true _ (pair_good (by simpa using ⟨a, rfl, hA⟩) (by simpa using ⟨b, rfl, hB⟩))
+        have hgm := hg m hm
+        cases m with
+        | leaf l =>
+          cases l with
+          | single x =>
+            simp only [M.good_leaf] at hgm
+            obtain ⟨x', hx', hxn, hxv⟩ := hgm
+            cases hx'
+            rcases invertSimple_err hvc x hxn hxv e hme with h | h | h <;> (rw [h]; decide)
+          | amulti _ _ => cases hme; decide
+          | aunion _ _ => cases hme; decide
+        | any => cases hme; decide
+        | empty => cases hme; decide
+        | multi _ => cases hme; decide
+        | union _ => cases hme; decide
+      · simp [pure, Except.pure] at h
+    · cases h; decide
+  · rcases invertSimple_err hvc s hn hv e h with h | h | h <;> (rw [h]; decide)
+
+theorem leaf_invert_no_syntaxT {P : VC → Prop} (hvc : VCErrDocumented) (hT : TextOkP P) (l : Leaf)
+    (hl : LexLeafT P l) (e : PyErr) (h : l.invert = .error e) : e ≠ .syntax := by
+  cases l with
+  | single s => exact single_invert_no_syntax hvc hT s hl e h
+  | amulti n c => exact leaf_invert_no_syntax hvc (.amulti n c) trivial e h
+  | aunion n c => exact leaf_invert_no_syntax hvc (.aunion n c) trivial e h
+
+mutual
+theorem invert_no_syntaxT {P : VC → Prop} (hvc : VCErrDocumented) (hT : TextOkP P) : ∀ (m : M),
+    M.Good (LexLeafT P) m → ∀ e, m.invert = .error e → e ≠ .syntax
+  | .any, _, e, h => by simp [M.invert] at h
+  | .empty, _, e, h => by simp [M.invert] at h
+  | .leaf l, hg, e, h => by
+    simp only [M.invert] at h
+    exact leaf_invert_no_syntaxT hvc hT l (by simpa using hg) e h
+  | .multi ms, hg, e, h => by
+    simp only [M.invert] at h
+    rcases bind_err _ _ _ h with h | ⟨_, _, h⟩
+    · exact invertList_no_syntaxT hvc hT ms (by simpa using hg) e h
+    · simp [pure, Except.pure] at h
+  | .union ms, hg, e, h => by
+    simp only [M.invert] at h
+    rcases bind_err _ _ _ h with h | ⟨_, _, h⟩
+    · exact invertList_no_syntaxT hvc hT ms (by simpa using hg) e h
+    · simp [pure, Except.pure] at h
+theorem invertList_no_syntaxT {P : VC → Prop} (hvc : VCErrDocumented) (hT : TextOkP P) : ∀ (ms : List M),
+    (∀ x ∈ ms, M.Good (LexLeafT P) x) → ∀ e, M.invertList ms = .error e → e ≠ .syntax
+  | [], _, e, h => by simp [M.invertList] at h
+  | m :: ms, hg, e, h => by
+    simp only [M.invertList] at h
+    rcases bind_err _ _ _ h with h | ⟨_, _, h⟩
+    · exact invert_no_syntaxT hvc hT m (hg m (by simp)) e h
+    · rcases bind_err _ _ _ h with h | ⟨_, _, h⟩
+      · exact invertList_no_syntaxT hvc hT ms (fun x hx => hg x (by simp [hx])) e h
+      · simp [pure, Except.pure] at h
+end
+
+/-! ## every accepted text: the un-simplified marker can be inverted without lark's error -/
+
+/-- name and value of a single leaf are readable -/
+def Lex0 (l : Leaf) : Prop :=
+  match l with
+  | .single s => s.name ∈ names ∧ LexVal s.value
+  | _ => True
+
+theorem mkSingle_lex0 (n op v : String) (sw : Bool) (hn : n ∈ names) (ho : op ∈ ops) (hv : TokVal v)
+    (s : Single) (h : mkSingle n (itemConstraintString op v sw) sw = .ok s) : Lex0 (.single s) := by
+  cases sw with
+  | true =>
+    have := mkSingle_lexLeaf_swapped n op v hn ho hv s h
+    exact ⟨this.1, this.2.1⟩
+  | false =>
+    obtain ⟨hval, hname, _⟩ := mkSingle_value_cut n _ s h
+    have hcs : (itemConstraintString op v false).toList = op.toList ++ v.toList := by
+      simp [itemConstraintString, String.toList_append]
+    refine ⟨by rw [hname]; exact alias_names n hn, ?_⟩
+    rcases hval with hcut | hpl
+    · rw [hcs] at hcut
+      have hcl := ops_chars_clean op ho
+      exact lexVal_of_cut op.toList v.toList s.value
+        (fun c hc => ⟨(hcl c hc).2.1, (hcl c hc).2.2.1, (hcl c hc).1, (hcl c hc).2.2.2⟩) hv hcut
+    · exact hpl.lex
+
+mutual
+theorem compactAtom_lex0 : ∀ (a : Marker.Atom) (m : M), AtomTok a → compactAtom a = .ok m → M.Good Lex0 m
+  | .item n op v sw, m, ht, h => by
+    unfold compactAtom at h
+    obtain ⟨s, hs, h⟩ := bind_ok _ _ _ h
+    simp only [pure, Except.pure, Except.ok.injEq] at h
+    subst h
+    simpa using mkSingle_lex0 n op v sw ht.1 ht.2.1 ht.2.2 s hs
+  | .paren syn, m, ht, h => by
+    unfold compactAtom at h
+    obtain ⟨gs, hg, h⟩ := bind_ok _ _ _ h
+    simp only [pure, Except.pure, Except.ok.injEq] at h
+    subst h
+    apply mkUnion_good
+    intro x hx
+    simp only [List.mem_map] at hx
+    obtain ⟨g, hg', rfl⟩ := hx
+    exact groupMarker_good (compactGroups_lex0 syn gs ht hg g hg')
+theorem compactGroups_lex0 : ∀ (s : Syn) (gs : List (List M)), SynTok s → compactGroups s = .ok gs →
+    ∀ g ∈ gs, GL Lex0 g
+  | .one a, gs, ht, h => by
+    unfold compactGroups at h
+    obtain ⟨x, hx, h⟩ := bind_ok _ _ _ h
+    simp only [pure, Except.pure, Except.ok.injEq] at h
+    subst h
+    intro g hg
+    simp at hg; subst hg
+    exact single_good (compactAtom_lex0 a x ht hx)
+  | .more a isOr rest, gs, ht, h => by
+    unfold compactGroups at h
+    obtain ⟨x, hx, h⟩ := bind_ok _ _ _ h
+    obtain ⟨gs', hgs, h⟩ := bind_ok _ _ _ h
+    have gx := compactAtom_lex0 a x ht.1 hx
+    have grest := compactGroups_lex0 rest gs' ht.2 hgs
+    split at h
+    · simp only [pure, Except.pure, Except.ok.injEq] at h
+      subst h
+      intro g hg
+      simp at hg
+      rcases hg with rfl | hg
+      · exact single_good gx
+      · exact grest g hg
+    · split at h
+      · rename_i g0 gs''
+        simp only [pure, Except.pure, Except.ok.injEq] at h
+        subst h
+        intro g hg
+        simp at hg
+        rcases hg with rfl | hg
+        · intro y hy
+          simp at hy
+          rcases hy with rfl | hy
+          · exact gx
+          · exact grest g0 (by simp) y hy
+        · exact grest g (by simp [hg])
+      · simp only [pure, Except.pure, Except.ok.injEq] at h
+        subst h
+        intro g hg
+        simp at hg; subst hg
+        exact single_good gx
+end
+
+mutual
+theorem good_mono {G1 G2 : Leaf → Prop} (hG : ∀ l, G1 l → G2 l) : ∀ (m : M), M.Good G1 m → M.Good G2 m
+  | .any, _ => by simp
+  | .empty, _ => by simp
+  | .leaf l, h => by simp only [M.good_leaf] at *; exact hG l h
+  | .multi ms, h => by simp only [M.good_multi] at *; exact goodAll_mono hG ms h
+  | .union ms, h => by simp only [M.good_union] at *; exact goodAll_mono hG ms h
+theorem goodAll_mono {G1 G2 : Leaf → Prop} (hG : ∀ l, G1 l → G2 l) : ∀ (ms : List M),
+    (∀ m ∈ ms, M.Good G1 m) → ∀ m ∈ ms, M.Good G2 m
+  | [], _ => by intro m hm; simp at hm
+  | x :: xs, h => by
+    intro m hm
+    simp at hm
+    rcases hm with rfl | hm
+    · exact good_mono hG m (h m (by simp))
+    · exact goodAll_mono hG xs (fun y hy => h y (by simp [hy])) m hm
+end
+
+/-- **the un-simplified marker of every tree carrying token values is invertible without lark's error** -/
+theorem compactRaw_invert_no_syntax {P : VC → Prop} (hvc : VCErrDocumented) (hP : VCOpsMin P) (hT : TextOkP P)
+    (syn : Syn) (m : M) (ht : SynTok syn) (hc : compactRaw syn = .ok m) (e : PyErr) (h : m.invert = .error e) :
+    e ≠ .syntax := by
+  unfold compactRaw at hc
+  obtain ⟨subs, hs, hc⟩ := bind_ok _ _ _ hc
+  simp only [pure, Except.pure, Except.ok.injEq] at hc
+  subst hc
+  have h1 := compactSubMarkers_good hvc hP syn subs hs
+  have h2 : GL Lex0 subs := by
+    unfold compactSubMarkers at hs
+    obtain ⟨gs, hg, hs⟩ := bind_ok _ _ _ hs
+    simp only [pure, Except.pure, Except.ok.injEq] at hs
+    subst hs
+    intro x hx
+    simp only [List.mem_map] at hx
+    obtain ⟨g, hg', rfl⟩ := hx
+    exact groupMarker_good (compactGroups_lex0 syn gs ht hg g hg')
+  have hcomb : GL (LexLeafT P) subs := by
+    intro x hx
+    refine good_mono ?_ x (good_and x (h1 x hx) (h2 x hx))
+    intro l hl
+    cases l with
+    | single s => exact ⟨hl.2.1, hl.2.2, hl.1.2⟩
+    | amulti _ _ => trivial
+    | aunion _ _ => trivial
+  exact invert_no_syntaxT hvc hT _ (mkUnion_good hcomb) e h
 
 end Poetry.ParserTotal
